@@ -153,6 +153,8 @@ def _run_shard(args):
 
 def run_case_clause(clause, tier, seed, jobs=NPROC):
     t0 = time.time()
+    from mc import synth
+    synth.scratch_root()          # created in the parent so that forked workers share (and the parent removes) it
     if clause.setup:
         clause.setup(tier, seed)
     cases = clause.cases(tier, seed)
